@@ -1,7 +1,7 @@
 (* C14 for event registrations: the model's reading of a refused allocation inside a register
    call, and what the C04 invariant says about it. *)
 From Coq Require Import NArith ZArith List Bool Arith.
-From LCP Require Import Base.CheckedMem Events.EventsTrace Events.EventsSpec Events.EventsModel Events.EventsSpecProofs Events.EventsInv.
+From LCP Require Import Base.CheckedMem Events.EventsTrace Events.EventsSpec Events.EventsModel Events.EventsNetInv Events.EventsSpecProofs Events.EventsInv.
 Import ListNotations.
 
 Definition failing_reg (o : op) : bool :=
@@ -20,20 +20,54 @@ Definition only_failure_events (old new : list event) : bool :=
   | _ => false
   end.
 
+(* What a refused registration leaves behind.  exec_op mirrors the unwinding of the C for every
+   point at which the call can be refused (EventsModel: net_register_refused - init() done,
+   socket list grown, record stored and taken out again by err1; timer_register_refused - the
+   timer queue created by the call stays), so this is a statement about those partial states:
+   nothing a later call can read has changed, except that an (empty) timer queue may now exist. *)
 Lemma failed_reg_unchanged o s s' :
-  failing_reg o = true -> exec_op o s = Ok s' ->
-  s_imm s' = s_imm s /\ s_net s' = s_net s /\ s_tmr s' = s_tmr s /\ s_cl s' = s_cl s /\
-  s_intr s' = s_intr s /\ only_failure_events (s_tr s) (s_tr s') = true.
+  failing_reg o = true -> NetInv (s_net s) -> exec_op o s = Ok s' ->
+  s_imm s' = s_imm s /\ s_cl s' = s_cl s /\ s_intr s' = s_intr s /\
+  heap (s_tmr s') = heap (s_tmr s) /\ (tq_inited (s_tmr s) = true -> tq_inited (s_tmr s') = true) /\
+  NetInv (s_net s') /\ (forall f d, field (s_net s') f d = field (s_net s) f d) /\
+  (forall f, rev_at (s_net s') f = rev_at (s_net s) f) /\ fds (s_net s') = fds (s_net s) /\
+  match o with
+  | OImmReg _ _ _ _ => s_net s' = s_net s /\ s_tmr s' = s_tmr s
+  | ONetReg _ _ _ _ => s_tmr s' = s_tmr s
+  | OTimerReg _ _ _ af => s_net s' = s_net s /\ (af <= 2 -> s_tmr s' = s_tmr s)
+  | _ => True
+  end /\
+  only_failure_events (s_tr s) (s_tr s') = true.
 Proof.
-  intros Hf H. destruct o; simpl in Hf; try discriminate.
+  intros Hf HI H. destruct o; simpl in Hf; try discriminate.
   - unfold exec_op in H. destruct (prio <? PRIO_LIMIT); [|discriminate].
-    rewrite Hf in H. inversion H; subst. simpl. rewrite Nat.eqb_refl. auto 10.
-  - unfold exec_op in H. rewrite Hf in H. inversion H; subst. simpl. rewrite Nat.eqb_refl. auto 10.
-  - unfold exec_op in H. destruct (af =? 1) eqn:E1.
-    + inversion H; subst. simpl. destruct (s_tr s); rewrite ?Nat.eqb_refl; auto 10.
-      destruct e; simpl; rewrite ?Nat.eqb_refl, ?orb_true_r; auto 10.
-    + rewrite Hf in H. unfold read_clock in H.
-      destruct (clocks (s_env s)); inversion H; subst; simpl; rewrite Nat.eqb_refl; auto 10.
+    rewrite Hf in H. inversion H; subst. simpl. rewrite Nat.eqb_refl. auto 20.
+  - unfold exec_op in H. rewrite Hf in H. inversion H; subst. cbn [s_imm s_cl s_intr s_tmr s_net s_tr emit set_net].
+    destruct (net_register_refused_spec af cb fd opn (next_rid (s_cl s)) (s_net s) HI) as [A [B [C D]]].
+    simpl. rewrite Nat.eqb_refl. auto 20.
+  - unfold exec_op in H. apply negb_true_iff in Hf. rewrite Hf in H.
+    assert (H0 : s_imm (timer_register_refused af s) = s_imm s /\ s_cl (timer_register_refused af s) = s_cl s /\
+                 s_intr (timer_register_refused af s) = s_intr s /\ s_net (timer_register_refused af s) = s_net s /\
+                 heap (s_tmr (timer_register_refused af s)) = heap (s_tmr s) /\
+                 (tq_inited (s_tmr s) = true -> tq_inited (s_tmr (timer_register_refused af s)) = true) /\
+                 (af <= 2 -> s_tmr (timer_register_refused af s) = s_tmr s) /\
+                 s_tr (timer_register_refused af s) = s_tr s /\ s_env (timer_register_refused af s) = s_env s).
+    { unfold timer_register_refused. destruct (3 <=? af) eqn:E3; [|auto 20].
+      apply Nat.leb_le in E3. simpl. repeat split; auto. intros X. exfalso. apply (Nat.lt_irrefl 2). eapply Nat.lt_le_trans; [|exact X]. exact E3. }
+    set (s0 := timer_register_refused af s) in *.
+    destruct H0 as [A1 [A2 [A3 [A4 [A5 [A6 [A7 [A8 A9]]]]]]]].
+    assert (Hviews : NetInv (s_net s0) /\ (forall f d, field (s_net s0) f d = field (s_net s) f d) /\
+                     (forall f, rev_at (s_net s0) f = rev_at (s_net s) f) /\ fds (s_net s0) = fds (s_net s)).
+    { rewrite A4. auto. }
+    destruct Hviews as [V1 [V2 [V3 V4]]].
+    destruct (Nat.odd af).
+    + inversion H; subst s'. cbn [s_imm s_cl s_intr s_tmr s_net s_tr emit]. rewrite A8.
+      refine (conj A1 (conj A2 (conj A3 (conj A5 (conj A6 (conj V1 (conj V2 (conj V3 (conj V4 (conj (conj A4 A7) _)))))))))).
+      simpl. destruct (s_tr s) as [|e l]; [reflexivity|]. destruct e; simpl; rewrite ?Nat.eqb_refl, ?orb_true_r; auto.
+    + unfold read_clock in H. rewrite A9 in H.
+      destruct (clocks (s_env s)); inversion H; subst s'; cbn [s_imm s_cl s_intr s_tmr s_net s_tr emit set_env]; rewrite A8;
+        (refine (conj A1 (conj A2 (conj A3 (conj A5 (conj A6 (conj V1 (conj V2 (conj V3 (conj V4 (conj (conj A4 A7) _))))))))));
+         simpl; rewrite Nat.eqb_refl; reflexivity).
 Qed.
 
 Lemma failed_reg_inert p xs pl cl fuel tr :
@@ -55,4 +89,28 @@ Example ex_failing_regs :
              check_c14_events tr = true /\ In (EInvoke 0) tr.
 Proof.
   eexists. split; [vm_compute; reflexivity|]. split; [vm_compute; reflexivity|]. vm_compute. tauto.
+Qed.
+
+(* the partial states are real: a registration of descriptor 2 refused in events_mkrec (stage 3)
+   leaves init() done and three empty socket records; refused in growpollfd (stage 4) the record
+   stored in the reader field is gone again; and a timer registration refused after it created the
+   timer queue makes the next events_run read the clock once more (in events_timer_get) than after
+   a refusal that left no queue *)
+Definition nclocks (t : trace) : nat :=
+  length (filter (fun e => match e with EClock _ => true | _ => false end) t).
+
+Example ex_refused_partial_states :
+  (exists s, exec_op (ONetReg 0 2 0 3) (st_init [] []) = Ok s /\
+             length (socks (s_net s)) = 3 /\ net_inited (s_net s) = true /\ fds (s_net s) = []) /\
+  (exists s, exec_op (ONetReg 0 2 0 4) (st_init [] []) = Ok s /\
+             length (socks (s_net s)) = 3 /\ field (s_net s) 2 false = None) /\
+  (exists t1 t3,
+     run_case [] [XOp (OTimerReg 0 (0, 10)%N 1 1); XRun] [RReady []] [(1, 0)%N] 50 = Ok t1 /\
+     run_case [] [XOp (OTimerReg 0 (0, 10)%N 1 3); XRun] [RReady []] [(1, 0)%N] 50 = Ok t3 /\
+     nclocks t1 = 0 /\ nclocks t3 = 1 /\ check_c04 t3 = true /\ check_c05 t3 = true).
+Proof.
+  split; [eexists; split; [vm_compute; reflexivity|]; repeat split; vm_compute; reflexivity|].
+  split; [eexists; split; [vm_compute; reflexivity|]; repeat split; vm_compute; reflexivity|].
+  eexists. eexists. split; [vm_compute; reflexivity|]. split; [vm_compute; reflexivity|].
+  repeat split; vm_compute; reflexivity.
 Qed.
